@@ -138,6 +138,13 @@ let cmd_parse () =
     let inp = bytes_of_string (unhex line) in
     print_endline (show_res (M.parse inp)))
 
+(* ---- owned: "<hex input>" -> parse, into_owned on the value model; "<result> wf=<0|1>" ---- *)
+let cmd_owned () =
+  iter_lines (fun line ->
+    let inp = bytes_of_string (unhex line) in
+    let (r, wf) = M.owned_parse inp in
+    print_endline (show_res r ^ (if wf then " wf=1" else " wf=0")))
+
 (* ---- client: "R<reads>|W<writes>|L<flushes>|O<ops>" -> observations ---- *)
 let split_nonempty c s = if s = "" then [] else String.split_on_char c s
 
@@ -218,6 +225,7 @@ let () =
   | "framed" -> cmd_framed ()
   | "client" -> cmd_client ()
   | "parse" -> cmd_parse ()
+  | "owned" -> cmd_owned ()
   | "builder" -> cmd_builder ()
   | "bodystruct" -> cmd_bodystruct ()
   | "tags" -> cmd_tags ()
